@@ -530,6 +530,10 @@ func (v *FV) havocGhost(st *State, g *GhostField, ref Term) []touched {
 	arr := "G_" + mangle(shortPkg(g.Owner)+"_"+g.Name)
 	gs := v.ghostSort(gty)
 	v.regArray(arr, fmt.Sprintf("(Array Int %s)", gs))
+	if v.eng.db.Stable[g.Owner+"."+g.Name] {
+		// a ghost field declared stable: no code writes it, it keeps its value across calls (only ghost assignments change it)
+		v.stableArrays[arr] = true
+	}
 	fresh := v.declare("hv_"+arr, gs)
 	if _, isMap := gty.(*types.Map); !isMap {
 		v.assume(st.reach, v.typeFacts(fresh, gty))
